@@ -20,15 +20,17 @@ def direct(text, r):
 
 
 def main(ctx):
-    search = pc.run(ctx, THEOREM_MODULES, pj.normalize_ws, direct,
+    search = pc.run(ctx, THEOREM_MODULES, pj.normalize_ws_keep_literals, direct,
                     "a binding's forwarding code differs from the proved-correct one",
                     "wrapper lambda and keyword-argument list disagree",
                     # member templates (methods, static methods, constructors) with nested instantiations
-                    extra_streams=[(dict(p_template=0.9, max_members=8, max_decls=3), 0.5)])
+                    extra_streams=[(dict(p_template=0.9, max_members=8, max_decls=3), 0.5),
+                                   # default values in quantity (string / character literals with blanks and tabs, nested calls)
+                                   (dict(rich_defaults=True, p_default=0.8, max_args=4), 0.4)])
     return fw.finish(ctx, search=search, assumptions=[
         "pybind11 and C++ call semantics are modelled (dispatch of a .def with py::arg defaults), not verified",
         "hand-written model of pybind_wrapper.py, tied byte-exactly on generated inputs"])
 
 
 def replay(ctx, path):
-    return pc.replay(ctx, path, pj.normalize_ws)
+    return pc.replay(ctx, path, pj.normalize_ws_keep_literals)
